@@ -20,7 +20,7 @@ VARIABLES l,     \* next line
           bad    \* set of <<case, clause>>
 vars == <<l, sl, s, pr, bad>>
 
-NoProbe == [n |-> 0, exp |-> FALSE, x |-> -1, mono |-> TRUE]
+NoProbe == [n |-> 0, exp |-> FALSE, x |-> -1, mono |-> TRUE, last |-> 0, gap |-> 0]
 
 TInit == l = 1 /\ sl = 0 /\ s = <<>> /\ pr = NoProbe /\ bad = {}
 
@@ -85,6 +85,12 @@ FinalViol(m, st, p, r) ==
               /\ ~AfterExpiryBound(N, M, p.x, r.cmps)
            THEN {"afterexpiry"} ELSE {})
      \cup (IF p.mono THEN {} ELSE {"probe_mono"})
+     \* time can run out at any moment, not only at a check: with a deadline present the work
+     \* between two consecutive checks, and from the last check to the return, stays a small
+     \* multiple of N+M (otherwise expiry is noticed arbitrarily late)
+     \cup (IF clean /\ m.stack = "none" /\ m.fuel >= -1 /\ p.n > 0
+              /\ ~GapBound(N, M, IF r.cmps - p.last > p.gap THEN r.cmps - p.last ELSE p.gap)
+           THEN {"probe_gap"} ELSE {})
      \* adapters fed with a script (family A, C10): totals preserved, input itself valid
      \cup (IF "in" \in DOMAIN m
            THEN LET inEvs == [i \in 1..Len(m.in) |-> TupleEvent(m.in[i])]
@@ -129,7 +135,10 @@ TNext ==
             /\ pr' = [n |-> pr.n + 1,
                       exp |-> r.exp,
                       x |-> IF r.exp /\ pr.x < 0 THEN r.cmps ELSE pr.x,
-                      mono |-> pr.mono /\ (pr.exp => r.exp)]
+                      mono |-> pr.mono /\ (pr.exp => r.exp),
+                      \* element comparisons since the previous deadline check (largest so far)
+                      last |-> r.cmps,
+                      gap |-> IF r.cmps - pr.last > pr.gap THEN r.cmps - pr.last ELSE pr.gap]
             /\ UNCHANGED <<sl, s, bad>>
        [] r.ev = "ret" ->
             /\ bad' = Flag(r.case, FinalViol(Rec[sl], s, pr, r) \ NotDemanded(Rec[sl]), l)
